@@ -22,9 +22,12 @@ func NewFuture[T vivid.Message](liaison vivid.ActorLiaison, timeout time.Duratio
 	}
 
 	if timeout > 0 {
+		// 定时器一经创建即可能触发，其回调中的 close 会读取 timer 字段：赋值与读取均在 mu 保护下进行
+		future.mu.Lock()
 		future.timer = time.AfterFunc(timeout, func() {
 			future.Close(vivid.ErrorFutureTimeout)
 		})
+		future.mu.Unlock()
 	}
 
 	return future
@@ -83,6 +86,8 @@ func (f *Future[T]) PipeTo(forwarders vivid.ActorRefs) error {
 	f.mu.Lock()
 	if f.closed.Load() {
 		f.mu.Unlock()
+		// closed 置位后 close 才写入 message/err 并关闭 done：等待 done，确保读到的是最终结果
+		<-f.done
 		f.tellForwarders(forwarders, f.message, f.err)
 		return nil
 	}
@@ -119,8 +124,11 @@ func (f *Future[T]) close(v any) {
 		f.err = fmt.Errorf("%w, expected %T, got %T", vivid.ErrorFutureMessageTypeMismatch, f.message, val)
 	}
 	close(f.done)
-	if f.timer != nil {
-		f.timer.Stop()
+	f.mu.Lock()
+	timer := f.timer
+	f.mu.Unlock()
+	if timer != nil {
+		timer.Stop()
 	}
 	if f.closer != nil {
 		f.closer()
